@@ -142,6 +142,21 @@ prop("C14", "fault_enumeration",
                   "the outer loop over (state, call) pairs is sampled; the inner loop over fault positions is exhaustive for F1 and, "
                   "within the stated caps, for F2/F3"])
 
+prop("C15", "exploration",
+     quick=[("hostile", "san", 700), ("hostile", "fast", 1200)],
+     thorough=[("hostile", "san", 30000), ("hostile", "fast", 60000), ("mixed", "san", 5000), ("tracks", "san", 5000)],
+     relevant=["hostile_call_threw", "hostile_call_completed"],
+     rule="hostile-caller histories on all 18 schemas under ASan+UBSan+_GLIBCXX_ASSERTIONS: cue/loop indices -1..9 and extremes, "
+          "0..12 cue/loop entries, labels 0..300 bytes incl. NUL and invalid UTF-8, waveform with sample rate/count absent or 0, ids that "
+          "never existed or were removed, create_*_after with a crate from another parent/level/removed, odd names, every member of stale "
+          "track and crate handles; a run is non-trivial if at least one hostile call was made, distinct if its plan digest is new and it "
+          "reached a new observation hash.  A sanitizer report, abort, SIGSEGV/SIGFPE, watchdog or non-std exception is the violation",
+     assumptions=["a worker death (sanitizer exit code, signal, wall-clock alarm) is attributed to the run whose BEGIN line was flushed last",
+                  "deterministic watchdogs: 4e6 SQLite VM ticks per call; inflate no-progress detector; 60 s alarm as backstop only",
+                  "once a hostile call whose effect the statement leaves open has completed (e.g. add_track of a nonexistent id), the forest/"
+                  "membership model is switched off for the rest of the run; only the C15 oracles continue"],
+     crash_owner=True)
+
 TIER_DEFAULT_SEED = {"quick": 1, "thorough": 20260929}
 
 
@@ -367,10 +382,26 @@ def plan_for(profile, variant, seed, run):
     return json.loads(out)
 
 
+CRASH_KINDS = ("crash", "asan", "ubsan", "glibcxx-assertion", "watchdog", "sigsegv")
+
+
+def is_crash_key(key):
+    return key.rsplit("|", 1)[-1] in CRASH_KINDS and key.count("|") == 2
+
+
+def same_class(a, b):
+    """Class-key equality; all worker-death kinds of one profile are one class
+    (the same memory error shows as SIGSEGV in the plain build and as an ASan
+    report in the sanitized one)."""
+    if a == b:
+        return True
+    return is_crash_key(a) and is_crash_key(b) and a.rsplit("|", 1)[0] == b.rsplit("|", 1)[0]
+
+
 def reproduces(serve, plan, key, profile):
     res = serve.run(plan)
     keys = [k for (_p, k, _d) in viol_keys(res, profile)]
-    return key in keys, res
+    return any(same_class(key, k) for k in keys), res
 
 
 def minimise(serve, plan, key, profile, budget=300):
@@ -451,6 +482,11 @@ def process_violation(pid, key, occ, seed):
     profile, variant, run, detail, plan = occ
     if plan is None:
         plan = plan_for(profile, variant, seed, run)
+    if is_crash_key(key) and variant == "fast":
+        # a memory error in the plain build need not crash twice the same way:
+        # reproduce and minimise it under the sanitizers, where it is detected deterministically
+        V.build(["san"])
+        variant = "san"
     serve = Serve(variant)
     try:
         ok1, r1 = reproduces(serve, plan, key, profile)
@@ -476,7 +512,7 @@ def process_violation(pid, key, occ, seed):
         doc["crash"] = {"exitcode": res.get("exitcode"), "stderr_tail": res.get("stderr", "")[-1500:]}
     json.dump(doc, open(path, "w"), indent=1)
     keys, fres = fresh_replay(variant, path)
-    if key not in keys:
+    if not any(same_class(key, k) for k in keys):
         return "nondeterministic", f"fresh-process replay of {path} did not reproduce {key}"
     if not fres.get("crash") and fres.get("gatehash") != doc["expect_gatehash"]:
         return "nondeterministic", f"fresh-process replay of {path} gave another gate digest"
@@ -509,7 +545,7 @@ def check_known(pid):
         rp = os.path.join(VERIF, f["replay"])
         data = json.load(open(rp))
         keys, _ = fresh_replay(data.get("variant", "fast"), rp)
-        hit = [k for k in keys if k == f.get("key") or ("key_regex" in f and re.fullmatch(f["key_regex"], k))]
+        hit = [k for k in keys if same_class(k, f.get("key", "")) or ("key_regex" in f and re.fullmatch(f["key_regex"], k))]
         if hit:
             log(f"KNOWN-FINDING: property={pid} {f['what']}")
         else:
@@ -593,7 +629,13 @@ def cmd_check(pid, tier):
     known_hits = sorted(k for k in col.own if k in open_keys)
     status = 0
     nviol = 0
-    for key in sorted(new)[:5]:
+    done_keys = []
+    for key in sorted(new):
+        if len(done_keys) >= 5:
+            break
+        if any(same_class(key, k) for k in done_keys):
+            continue
+        done_keys.append(key)
         st, info = process_violation(pid, key, new[key][0], seed)
         if st == "violation":
             nviol += 1
@@ -621,7 +663,7 @@ def cmd_replay(path):
     variant = data.get("variant", "fast")
     V.build([variant])
     keys, res = fresh_replay(variant, path)
-    if data["class_key"] in keys:
+    if any(same_class(data["class_key"], k) for k in keys):
         log(f"reproduced {data['class_key']}")
         log(f"VIOLATION property={data['property']} replay={path}")
         return 1
